@@ -111,6 +111,86 @@ REF_FUNCS = {
 }
 
 
+REF_VOIGT = '''
+def voigt_f_profile(g_width, l_width):
+    g_width = unit_utils.get_value(g_width, u.Hz)
+    factor = 2 * np.sqrt(2 * np.log(2))
+    sigma = g_width / factor
+    l_width = unit_utils.get_value(l_width, u.Hz)
+    gamma = l_width / 2
+    def f_profile(f, f_center):
+        return func_utils.voigt(f, f_center, sigma, gamma) / func_utils.voigt(f_center, f_center, sigma, gamma)
+    return f_profile
+'''
+REF_MULTI_GAUSS = '''
+def multiple_gaussian_f_profile(width):
+    width = unit_utils.get_value(width, u.Hz)
+    factor = 2 * np.sqrt(2 * np.log(2))
+    sigma = width / factor
+    def f_profile(f, f_center):
+        return func_utils.gaussian(f, f_center - 100, sigma) / 4 + func_utils.gaussian(f, f_center, sigma) + func_utils.gaussian(f, f_center + 100, sigma) / 4
+    return f_profile
+'''
+REF_RFI = '''
+def simple_rfi_path(f_start, drift_rate, spread, spread_type='uniform', rfi_type='stationary', seed=None):
+    rng = np.random.default_rng(seed)
+    f_start = unit_utils.get_value(f_start, u.Hz)
+    drift_rate = unit_utils.get_value(drift_rate, u.Hz / u.s)
+    spread = unit_utils.get_value(spread, u.Hz)
+    def path(t):
+        if spread_type == 'uniform':
+            f_offset = rng.uniform(-spread / 2., spread / 2., size=t.shape)
+        elif spread_type == 'normal':
+            factor = 2 * np.sqrt(2 * np.log(2))
+            f_offset = rng.normal(0, spread / factor, size=t.shape)
+        else:
+            raise ValueError('not a valid spread type')
+        if rfi_type == 'random_walk':
+            f_offset = np.cumsum(f_offset)
+        return f_start + drift_rate * t + f_offset
+    return path
+'''
+REF_PERIODIC = '''
+def periodic_gaussian_t_profile(pulse_width, period, phase=0, pulse_offset_width=0, pulse_direction='rand', pnum=3,
+                                amplitude=1, level=1, min_level=0, seed=None):
+    rng = np.random.default_rng(seed)
+    period = unit_utils.get_value(period, u.s)
+    factor = 2 * np.sqrt(2 * np.log(2))
+    pulse_offset_sigma = unit_utils.get_value(pulse_offset_width, u.s) / factor
+    pulse_sigma = unit_utils.get_value(pulse_width, u.s) / factor
+    def t_profile(t):
+        center_ks = np.round((t + phase) / period - 1 / 4.)
+        temp = pnum // 2
+        if pnum % 2 == 1:
+            center_ks = np.array([center_ks + 1 * i for i in np.arange(-temp, temp + 1)])
+        else:
+            center_ks = np.array([center_ks + 1 * i for i in np.arange(-temp + 1, temp + 1)])
+        centers = (4. * center_ks + 1.) / 4. * period - phase
+        unique_center_ks = np.unique(center_ks)
+        offset_dict = dict(zip(unique_center_ks, rng.normal(0, pulse_offset_sigma, unique_center_ks.shape)))
+        get_offsets = np.vectorize(lambda x: offset_dict[x])
+        sign_list = []
+        for c in unique_center_ks:
+            x = rng.uniform(0, 1)
+            if (pulse_direction == 'up' or pulse_direction == 'rand' and x < 0.5):
+                sign_list.append(1)
+            elif pulse_direction == 'down' or pulse_direction == 'rand':
+                sign_list.append(-1)
+            else:
+                sys.exit('Invalid pulse direction!')
+        sign_dict = dict(zip(unique_center_ks, sign_list))
+        get_signs = np.vectorize(lambda x: sign_dict[x])
+        centers += get_offsets(center_ks)
+        center_signs = zip(centers, get_signs(center_ks))
+        intensity = 0
+        for c, sign in center_signs:
+            intensity += sign * amplitude * func_utils.gaussian(t, c, pulse_sigma)
+        intensity += level
+        return np.maximum(min_level, intensity)
+    return t_profile
+'''
+
+
 def configs(tier):
     kinds = ('callable', 'array', 'scalar')
     base = dict(path='callable', t_profile='callable', bp_profile='none', bounding=False, ip=False, it=False, iff=False, sm=False)
@@ -192,6 +272,55 @@ def run(ctx):
         va = ctx.apply(I, f, r.ret, args)
         vb = ctx.apply(I2, f, ref, args)
         ctx.formula('FORMULA', f'{f.name}: closed form', f, va, vb, node=f.node, construct=f'return of {f.name}')
+    # families with their own state / loops: compared through a reference transcription of the whole factory,
+    # applying the returned closure to a symbolic argument in both
+    for short, ref, argn, cfgs in (
+            ('funcs.f_profiles.voigt_f_profile', REF_VOIGT, ['f', 'f_center'], [{}]),
+            ('funcs.f_profiles.multiple_gaussian_f_profile', REF_MULTI_GAUSS, ['f', 'f_center'], [{}]),
+            ('funcs.paths.simple_rfi_path', REF_RFI, ['t'],
+             [{'spread_type': lift(a), 'rfi_type': lift(b)} for a in ('uniform', 'normal', 'other') for b in ('stationary', 'random_walk')]),
+            ('funcs.t_profiles.periodic_gaussian_t_profile', REF_PERIODIC, ['t'],
+             [{'pulse_direction': lift(d)} for d in ('rand', 'up', 'down')])):
+        f = ctx.func(short)
+        for cfg in cfgs:
+            I = ctx.interp()
+            r = I.run(f, args=dict(cfg))
+            ctx._account(I)
+            rf = ctx.ref_func(f, ref)
+            I2 = ctx.interp()
+            r2 = I2.run(rf, args=dict(cfg))
+            args = [sym(a) for a in argn]
+            n1, n2 = len(I.events), len(I2.events)
+            va = ctx.apply(I, f, r.ret, args)
+            vb = ctx.apply(I2, f, r2.ret, args)
+            tag = ', '.join(f'{k}={pretty(v)}' for k, v in cfg.items())
+            ctx.formula('FORMULA', f'{f.name}[{tag}]: value of the returned function == reference definition', f, va, vb,
+                        node=f.node, construct=f'return of {f.name} [{tag}]')
+            ea = [e for e in I.events[n1:] if e.kind == 'store' and e.loops and e.data.get('target') == 'name'
+                  and any(e.data['name'] in l.get('carried', ()) for l in e.loops)]
+            eb = [e for e in I2.events[n2:] if e.kind == 'store' and e.loops and e.data.get('target') == 'name'
+                  and any(e.data['name'] in l.get('carried', ()) for l in e.loops)]
+            if len(ea) != len(eb):
+                ctx.ob('FORMULA', f'{f.name}[{tag}]: same accumulation steps as the reference', f, False,
+                       {'code': [e.text()[:70] for e in ea], 'reference': [e.text()[:70] for e in eb]}, node=f.node,
+                       construct=f'loop accumulations of {f.name} [{tag}]')
+            else:
+                for x, y in zip(ea, eb):
+                    ctx.formula('FORMULA', f'{f.name}[{tag}]: accumulation step == reference', f, x.data['value'], y.data['value'],
+                                node=x.node, construct=x.text()[:70] + f' [{tag}]')
+            ra = [e for e in I.events[n1:] if e.kind == 'raise']
+            rb = [e for e in I2.events[n2:] if e.kind == 'raise']
+            ctx.ob('FORMULA', f'{f.name}[{tag}]: rejects the same configurations as the reference', f, len(ra) == len(rb),
+                   {'code': [e.text()[:60] for e in ra], 'reference': [e.text()[:60] for e in rb]}, node=f.node,
+                   construct=f'raise paths of {f.name} [{tag}]')
+    for short, lam, argn in (('funcs.func_utils.gaussian', 'lambda x, x0, sigma: np.exp(-np.power(x - x0, 2.) / (2 * np.power(sigma, 2.)))', ['x', 'x0', 'sigma']),
+                             ('funcs.func_utils.lorentzian', 'lambda x, x0, gamma: 1 / (1 + np.power((x - x0) / gamma, 2))', ['x', 'x0', 'gamma']),
+                             ('funcs.func_utils.voigt_fwhm', 'lambda g_width, l_width: 0.5346 * l_width + np.sqrt(0.2166 * l_width**2 + g_width**2)', ['g_width', 'l_width'])):
+        f = ctx.func(short)
+        r, I = ctx.run(f)
+        I2 = ctx.interp()
+        vb = ctx.apply(I2, f, ctx.spec(f, lam, I=I2), [sym(a) for a in argn])
+        ctx.formula('FORMULA', f'{f.name}: closed form', f, r.ret, vb, node=f.node, construct=f'return {f.name}')
     f = ctx.func('funcs.t_profiles.constant_t_profile')
     I = ctx.interp()
     r = I.run(f)
